@@ -212,3 +212,50 @@ Example C08_run_example :
   = run_driver 4 1 2 rf dr (Some (3, tbl)) [Some (skipn 4 w0); Some (skipn 4 w1)] (skipn 16 d)
   /\ run_driver 4 2 2 rf dr (Some (3, tbl)) [Some w0; Some w1] d <> d.
 Proof. vm_compute. split; [reflexivity | discriminate]. Qed.
+
+(** ** (family rfgen) the offset vectors of the RF kick and of the drift as GENERATED from the C++ on every run
+    (Gen/Gen_RFDrift.v: loop bounds, the written index n*_xsize+x, the value expressions and the updateSM() call of
+    RFKickMap::_calcKick - both RF models - and of the DriftMap constructor; Model/RFDriftGen.v runs them, [rs_offset] is
+    `_offset`, [rs_built] the offsets updateSM() built the table from): the entry KickMap::apply reads for bunch b of an
+    nb-bunch map is the entry the single-bunch map reads (the same field value), the table is built from it, and the
+    drift entries do not depend on the number of bunches (entries beyond the first block stay 0 and are never read). *)
+From Inovesa Require Model.RFDriftKit Gen.Gen_RFDrift Model.RFDriftGen Proofs.RFDriftGenP.
+Module RFGenFamily.
+Import String RFDriftKit Gen_RFDrift RFDriftGen RFDriftGenP.
+
+Theorem C08_rf_offsets_same_for_every_bunch_generated :
+  forall (K : Fld) (ftan fsin fasin : K -> K) (nb nx ny : Z) (A0 A1 : axfacts K) (M : rfk_members K) (phase ampl : K)
+         (st st1 : rfd_state K) (b x : Z),
+    0 <= b < nb -> 0 <= x < nx ->
+    let multi := gen_calcKick ftan fsin fasin nb nx ny A0 A1 M phase ampl st in
+    let single := gen_calcKick ftan fsin fasin 1 nx ny A0 A1 M phase ampl st1 in
+    rs_offset multi (Z.min b (nb - 1) * nx + x) = model_kick K ftan fsin A0 A1 M phase ampl x /\
+    rs_offset multi (Z.min b (nb - 1) * nx + x) = rs_offset single (Z.min 0 (1 - 1) * nx + x) /\
+    rs_built multi (Z.min b (nb - 1) * nx + x) = rs_offset multi (Z.min b (nb - 1) * nx + x).
+Proof. exact rf_offsets_all_bunches_generated. Qed.
+Print Assumptions C08_rf_offsets_same_for_every_bunch_generated.
+
+Theorem C08_drift_offsets_same_for_every_bunch_generated :
+  forall (K : Fld) (ftan fsin fasin : K -> K) (nb nx ny : Z) (A0 A1 : axfacts K) (slip : list K) (E0 : K) (y : Z),
+    0 <= y < ny ->
+    let multi := gen_drift_ctor ftan fsin fasin nb nx ny A0 A1 slip E0 in
+    let single := gen_drift_ctor ftan fsin fasin 1 nx ny A0 A1 slip E0 in
+    rs_offset multi y = drift_off slip (ax_scale A1 U_ElectronVolt) E0 (ax_delta A0) (ax_at A1 y) /\
+    rs_offset multi y = rs_offset single y /\ rs_built multi y = rs_offset multi y /\
+    (forall i, ny <= i -> rs_offset multi i = f0).
+Proof. exact drift_offsets_all_bunches_generated. Qed.
+Print Assumptions C08_drift_offsets_same_for_every_bunch_generated.
+
+(** with these generated offsets the slice theorems above apply: slice b of the nb-bunch RF kick whose table was built
+    by the generated _calcKick is the single-bunch kick of that slice *)
+Theorem C08_rf_kick_slice_generated :
+  forall (ftan fsin fasin : Qc -> Qc) n nb it (A0 A1 : axfacts QcF) (M : rfk_members QcF) (phase ampl : Qc)
+         (st : rfd_state QcF) (D : Z -> Qc) b x y,
+    valid_it it -> 0 < n -> 0 < nb -> 0 <= b < nb -> 0 <= x < n -> 0 <= y < n ->
+    let offs := rs_built (gen_calcKick (K:=QcF) ftan fsin fasin nb n n A0 A1 M phase ampl st) in
+    apply_y n nb it (updateSM n it offs) D (didx n b x y) =
+    apply_y n 1 it (updateSM n it (rf_offsets (K:=QcF) n (model_kick QcF ftan fsin A0 A1 M phase ampl)))
+            (fun i => D (b * n * n + i)) (didx n 0 x y).
+Proof. exact rf_kick_slice_generated. Qed.
+Print Assumptions C08_rf_kick_slice_generated.
+End RFGenFamily.
